@@ -478,6 +478,26 @@ theorem engArithScalar_safe_raw_left (st : St) (op : String) (t : Dense) (sc : S
   intro i hi
   exact ⟨_, cell_some_cellD (hT.has i hi), hv i hi⟩
 
+/-- **Scalar on the left, tensor on the right, raw path, safe mode**: a fresh clone whose cell `i` is the vector kernel's
+    function of `s` and `t[i]` **in that order** (`Sub(s, t)[i] = s - t[i]`): the clone is filled with the scalar and
+    the vector-vector kernel runs on it with the tensor as second operand. (`vecFn op` is `op` itself except for float
+    division, which goes through `vecf64.Div` - recorded finding F30.) -/
+theorem engArithScalar_safe_raw_right (st : St) (op : String) (t : Dense) (sc : ScalarArg)
+    (hnum : t.dt ∈ numberTypes) (hk : t.dt ∈ kernelTypes op) (hdt : t.dt = sc.dt) (hsrc : sc.src = none)
+    (hit : t.requiresIterator = false) (hmt : t.mask = none) (hcap : t.win.len ≤ t.win.cap)
+    (hT : InBuf st t.win.buf t.win.off t.win.len) (hS : InBuf st sc.win.buf sc.win.off 1) :
+    ∃ out c s, engArithScalar st op numberTypes t sc false {} = .ok out ∧ out.ret = .fresh c ∧
+      c.ap = { t.ap with fin := true } ∧ c.win = ⟨st.heap.size, 0, t.win.len, t.win.len⟩ ∧
+      cell st sc.win.buf sc.win.off = some s ∧ out.st.mheap = st.mheap ∧
+      (∀ i, i < t.win.len → ∃ x, cell st t.win.buf (t.win.off + i) = some x ∧
+        cell out.st c.win.buf i = some (vecFn op t.dt s x)) ∧
+      (∀ b' k, b' < st.heap.size → cell out.st b' k = cell st b' k) := by
+  obtain ⟨st', h, hm, hv, hfr⟩ := engArithScalar_safe_raw_right' st op numberTypes t sc (by simpa using hnum)
+    (by simpa using hk) hdt hsrc hit hmt hcap hT hS
+  refine ⟨_, _, _, h, rfl, rfl, rfl, cell_some_cellD (by simpa using hS.has 0 (by omega)), hm, ?_, hfr⟩
+  intro i hi
+  exact ⟨_, cell_some_cellD (hT.has i hi), hv i hi⟩
+
 /-- **Layout-blind and in operand order: a tensor that needs an iterator and a scalar on either side, safe mode.** The
     result is a clone of the tensor in which every logical element - every cell the tensor's iterator addresses - is
     `op t s` when the tensor is the left operand and `op s t` when the scalar is; the gaps of a view keep their value;
@@ -715,6 +735,8 @@ example : ∃ out, engMMScalar st6 "minb" tv scv false {} = .ok out ∧
 -- tensor-scalar arithmetic at engine level: raw path (tensor left), and the view with gaps with the scalar on either side
 example := engArithScalar_safe_raw_left st "sub" ta { win := ws, dt := "f64" } (by decide) (by decide) rfl rfl (by decide) rfl
   (by decide) rfl inA inS
+example := engArithScalar_safe_raw_right st "sub" ta { win := ws, dt := "f64" } (by decide) (by decide) rfl rfl (by decide) rfl
+  (by decide) inA inS
 example := engArithScalar_safe_iter st6 "sub" tv scv true (by decide) (by decide) rfl rfl (by decide) (by decide) rfl rfl
   (by decide) (by decide) ⟨_, rfl, by decide⟩ ⟨_, rfl, by decide⟩
 example := engArithScalar_safe_iter st6 "sub" tv scv false (by decide) (by decide) rfl rfl (by decide) (by decide) rfl rfl
